@@ -258,32 +258,40 @@ fn resdb_proj(db: &ResidencyDb, nb: u32) -> Value {
     res_proj_of(db.scan_keys(), &|k| db.is_resident(k), db.entry_count(), nb)
 }
 
-fn disk_proj(c: &DiskCache<RibbitKey>) -> (bool, String, Value) {
+fn disk_val_str(b: &[u8]) -> String {
+    format!("{}:{}", b.len(), md5hex(b))
+}
+/// objects "entry:a" "entry:b" "entry:c" (what get answers: "none" or "<len>:<md5>") and "size"
+fn disk_proj(c: &DiskCache<RibbitKey>) -> (bool, String, Value, i64) {
     // size() first: get() on a new instance adds what it finds to the in-memory index
     let mut ok = true;
     let mut err = String::new();
-    let size = match block(c.size()) {
-        Ok(n) => json!(n),
+    let mut o = Map::new();
+    let mut sizen = -1i64;
+    match block(c.size()) {
+        Ok(n) => {
+            sizen = n as i64;
+            o.insert("size".into(), json!(n.to_string()));
+        }
         Err(e) => {
             ok = false;
             err = e.to_string();
-            json!("err")
+            o.insert("size".into(), json!("err"));
         }
-    };
-    let mut gets = Map::new();
+    }
     for k in ["a", "b", "c"] {
         let v = match block(c.get(&disk_key(k))) {
-            Ok(None) => json!(null),
-            Ok(Some(b)) => json!({"n": b.len(), "h": md5hex(&b)}),
+            Ok(None) => "none".to_string(),
+            Ok(Some(b)) => disk_val_str(&b),
             Err(e) => {
                 ok = false;
                 err = e.to_string();
-                json!("err")
+                "err".to_string()
             }
         };
-        gets.insert(k.to_string(), v);
+        o.insert(format!("entry:{k}"), json!(v));
     }
-    (ok, err, json!({"cache": canon(&json!({"size": size, "gets": gets}))}))
+    (ok, err, Value::Object(o), sizen)
 }
 
 fn journal_proj(b: Option<&ExtractorCompactorBackup>) -> (Value, Vec<u16>) {
@@ -331,7 +339,7 @@ fn open_disk(dir: &Path, subdirs: bool, bg: bool) -> Result<DiskCache<RibbitKey>
 impl World {
     fn new(case: &Case, dir: &Path) -> World {
         match case.routine.as_str() {
-            "lru" => World::Lru { l: LruManager::new(case.cap, dir.to_path_buf()), nmut: 0 },
+            "lru" => World::Lru { l: LruManager::new(case.cap, dir.to_path_buf()), nmut: 0 },   // see start(): one mutation
             "index" => World::Index { m: IndexManager::new(dir), nadd: 0, live: vec![], upd3: 0 },
             "res" if case.direct => World::ResDirect { db: ResidencyDb::new(dir.join("key_state_v8")), nmark: 0, live: vec![] },
             "res" => World::Res { c: open_res(dir).0, nmark: 0, live: vec![] },
@@ -364,6 +372,8 @@ impl World {
                     *l = LruManager::new(case.cap, dir.to_path_buf());
                     okerr(&block(l.run_cycle(0, 1)))
                 }
+                // periodic maintenance on the live manager (reloads the latest checkpoint)
+                "cycle" => okerr(&block(l.run_cycle(0, 1))),
                 other => panic!("driver: unknown lru op {other}"),
             },
             World::Index { m, nadd, live, upd3 } => match op {
@@ -471,7 +481,11 @@ impl World {
                 "puta" | "putb" => {
                     let n = *nput;
                     *nput += 1;
-                    okerr(&block(c.put(disk_key(&op[3..]), Bytes::from(disk_val(n)))))
+                    let val = disk_val(n);
+                    let mut r = okerr(&block(c.put(disk_key(&op[3..]), Bytes::from(val.clone()))));
+                    r["k"] = json!(&op[3..]);
+                    r["val"] = json!(disk_val_str(&val));
+                    r
                 }
                 "rma" => okerr(&block(c.remove(&disk_key("a")))),
                 "reopen" => match open_disk(dir, case.subdirs, case.bg) {
@@ -487,7 +501,9 @@ impl World {
                 "rec" => {
                     let n = *nrec;
                     *nrec += 1;
-                    okerr(&b.record_segment(journal_seg(n)))
+                    let mut r = okerr(&b.record_segment(journal_seg(n)));
+                    r["seg"] = json!(journal_seg(n));
+                    r
                 }
                 "reopen" => {
                     let r = ExtractorCompactorBackup::load(dir);
@@ -513,6 +529,41 @@ impl World {
             World::ResDirect { db, .. } => resdb_proj(db, case.nb),
             World::Disk { c, .. } => disk_proj(c).2,
             World::Journal { b, .. } => journal_proj(Some(b)).0,
+        }
+    }
+
+    /// the state a history starts from.  Stage 1: an empty directory (the LRU table gets one un-saved mutation so
+    /// that short histories have something to lose).  Stage 2 (`base`): a post-crash directory of an earlier case
+    /// has been materialised into `dir`; the store is reopened on it the way the recovery does, and the key
+    /// counters continue behind the base history.
+    fn start(case: &Case, dir: &Path) -> World {
+        let mut w = World::new(case, dir);
+        let base_ops: Vec<String> = case.raw["base"]["def"]["ops"].as_array().map(|a| a.iter().map(|o| o.as_str().unwrap_or("").to_string()).collect()).unwrap_or_default();
+        let count = |names: &[&str]| base_ops.iter().filter(|o| names.contains(&o.as_str())).count() as u32;
+        if case.raw.get("base").is_some() {
+            w.apply(case, dir, "reopen");
+            match &mut w {
+                World::Lru { nmut, .. } => *nmut = 1 + count(&["mut"]),
+                World::Index { nadd, live, .. } => {
+                    *nadd = count(&["add"]);
+                    *live = (0..*nadd).collect();
+                }
+                World::Res { nmark, live, .. } | World::ResDirect { nmark, live, .. } => {
+                    *nmark = count(&["mark"]);
+                    *live = (0..*nmark).collect();
+                }
+                World::Disk { nput, .. } => *nput = count(&["puta", "putb"]),
+                World::Journal { nrec, .. } => *nrec = count(&["rec"]),
+            }
+        } else if let World::Lru { .. } = &w {
+            w.apply(case, dir, "mut");
+        }
+        w
+    }
+    fn mem_segs(&self) -> Value {
+        match self {
+            World::Journal { b, .. } => json!(b.segments()),
+            _ => json!([]),
         }
     }
 }
@@ -589,8 +640,8 @@ fn recover(case: &Case, dir: &Path, with_resave: bool) -> (Value, Value) {
                 Ok(c) => c,
                 Err(e) => return (json!({"ok": false, "err": e, "proj": {}}), skipped),
             };
-            let (ok, err, proj) = disk_proj(&c);
-            let res = json!({"ok": ok, "err": err, "proj": proj});
+            let (ok, err, proj, sizen) = disk_proj(&c);
+            let res = json!({"ok": ok, "err": err, "proj": proj, "sizen": sizen});
             if !ok || !with_resave {
                 return (res, skipped);
             }
@@ -685,12 +736,18 @@ fn history(cases_path: &str, ctx: &Path) {
         std::fs::create_dir_all(&sb).expect("sandbox");
         let cdir = ctx.join(&case.id);
         std::fs::create_dir_all(&cdir).expect("ctx dir");
-        let mut w = World::new(&case, &sb);
+        if let Some(base) = case.raw.get("base") {
+            // stage 2: start from a post-crash directory of an earlier case (leftover temporary files included)
+            let bctx = load_ctx(ctx, base["def"]["id"].as_str().expect("base case id"), false);
+            materialise(&sb, &base["scn"], &bctx);
+        }
+        let mut w = World::start(&case, &sb);
         let mut results = vec![];
         let (last, prefix) = case.ops.split_last().expect("a case has at least the save");
         for op in prefix {
             results.push(w.apply(&case, &sb, op));
         }
+        let mem_pre = guarded(|| w.proj(&case)).unwrap_or_else(|m| json!({"panic": m}));
         copy_tree(&sb, &cdir.join("pre"));
         // markers: failing unlink calls that show up in the system-call log
         let _ = std::fs::remove_file(sb.join("__C06_BEGIN__"));
@@ -701,8 +758,10 @@ fn history(cases_path: &str, ctx: &Path) {
         let _ = std::fs::remove_file(sb.join("__C06_END__"));
         copy_tree(&sb, &cdir.join("post"));
         let mem = guarded(|| w.proj(&case)).unwrap_or_else(|m| json!({"panic": m}));
+        let mem_segs = w.mem_segs();
         drop(w);
-        let hist = json!({"case": case.raw, "sandbox": sb.to_string_lossy(), "prefix_results": results, "save": save, "mem_new": mem});
+        let hist = json!({"case": case.raw, "sandbox": sb.to_string_lossy(), "prefix_results": results, "save": save,
+                          "mem_pre": mem_pre, "mem_new": mem, "mem_segs": mem_segs});
         std::fs::write(cdir.join("hist.json"), canon(&hist)).expect("hist.json");
         let _ = std::fs::remove_dir_all(root.join(&case.id));
         n += 1;
@@ -730,10 +789,11 @@ fn work_dir(tag: &str) -> PathBuf {
     scratch_root().join(format!("c06-r{}", std::process::id())).join(tag)
 }
 
-fn load_ctx(ctx: &Path, id: &str) -> std::sync::Arc<CaseCtx> {
+fn load_ctx(ctx: &Path, id: &str, with_header: bool) -> std::sync::Arc<CaseCtx> {
     let mut g = CTX.lock().unwrap();
     if let Some((cid, c)) = g.as_ref()
         && cid == id
+        && (!with_header || !c.header.is_null())
     {
         return c.clone();
     }
@@ -762,6 +822,11 @@ fn load_ctx(ctx: &Path, id: &str) -> std::sync::Arc<CaseCtx> {
             }
         }
     }
+    if !with_header {
+        let c = std::sync::Arc::new(CaseCtx { case, pre, pre_mtime, writes, utimes, header: Value::Null });
+        *g = Some((id.to_string(), c.clone()));
+        return c;
+    }
     // Old / New: the real recovery on the directory before the save and after the completed save
     let d = work_dir("old");
     let _ = std::fs::remove_dir_all(&d);
@@ -780,7 +845,8 @@ fn load_ctx(ctx: &Path, id: &str) -> std::sync::Arc<CaseCtx> {
         .map(|f| json!({"name": f, "len": std::fs::metadata(cdir.join("post").join(f)).map(|m| m.len()).unwrap_or(0)}))
         .collect();
     let header = json!({"op": "new", "case": id, "routine": case.routine, "ops": case.ops, "def": case.raw, "post": post,
-                        "old": old, "new": new, "mem_new": hist["mem_new"], "save": hist["save"],
+                        "old": old, "new": new, "mem_pre": hist["mem_pre"], "mem_new": hist["mem_new"], "mem_segs": hist["mem_segs"],
+                        "save": hist["save"], "stage": if hist["case"].get("base").is_some() { 2 } else { 1 },
                         "roundtrip_same": new["proj"] == hist["mem_new"]});
     let c = std::sync::Arc::new(CaseCtx { case, pre, pre_mtime, writes, utimes, header });
     *g = Some((id.to_string(), c.clone()));
@@ -845,7 +911,7 @@ fn lru_gen_of(name: &str) -> i64 {
 
 fn run_scenario(ctx: &Path, scn: &Value, out: &Emit) {
     let id = scn["case"].as_str().expect("scenario case").to_string();
-    let c = load_ctx(ctx, &id);
+    let c = load_ctx(ctx, &id, true);
     {
         let mut last = LAST_CASE.lock().unwrap();
         if *last != id {
